@@ -354,7 +354,12 @@ def r5_flag(ctx, chk, rule="C01.5"):
                 st = ctx.cfg(f).stmt_of(n)
                 if isinstance(st, ast.If) and _in(n, st.test) and all(isinstance(b, ast.Raise) or _is_log(b) for b in st.body) \
                         and any(isinstance(b, ast.Raise) for b in st.body) and not st.orelse:
-                    chk.ok(rule, f.where(n), "flag `%s` guards only a raise (`if %s`)" % (flag, src(st.test)))
+                    if q == SOLVER_VIR:
+                        chk.ok(rule, f.where(n), "flag `%s` guards only the no-solution raise (`if %s`; its exact condition is judged by C06.2)" % (flag, src(st.test)))
+                    else:
+                        chk.violation(rule, f.where(n), "`if %s: raise` in %s: with pruning requested the solver fails where without pruning it reports probabilities - "
+                                      "the outcome of the reachability phase depends on the flag beyond the documented no-solution test" % (src(st.test), f.short),
+                                      expected="the flag guards only the no-solution raise after the sweep", found=norm_stmt(st), construct="%s extra flag-guarded raise" % f.short)
                     continue
                 chk.violation(rule, f.where(n), "`%s` depends on the pruning flag: the reported probabilities / strategies are not the same with pruning on and off" % norm_stmt(st),
                               expected="flag only forwarded or guarding the 'no solution' raise", found=norm_stmt(st),
